@@ -238,8 +238,10 @@ def extract_iter(
         else:
             # Only inserting new items into the stack trace; since
             # next_inner is in both `items` and `to_unwrap`, remove it
-            # from the latter
-            to_unwrap.popleft()
+            # from the latter (it's absent if it was None, i.e., this was
+            # the innermost frame and there is no leaf)
+            if to_unwrap:
+                to_unwrap.popleft()
         for item in reversed(items):
             to_unwrap.appendleft((better_origin(item, None), item, depth))
 
